@@ -10,7 +10,9 @@
                                                otherwise an ordinary call whose answer is the
                                                close object)
     NetworkClient._listen / stream_recv_msg -> `recv` (three `readexactly`, pop by id, set_result;
-                                               close ack / remote close request / server push)
+                                               close ack / remote close request / start of a server
+                                               push request) and `served` (its evaluation has ended:
+                                               result sent back, or the listener leaves)
     NetworkClient._run (except/finally)     -> `lexit` (writer := None, start of the cleanup)
     NetworkClient._cleanup_pending_responses-> `cl` (one iteration), `clr` (`d.clear()`)
         pinned : `for f in d.values(): f.set_exception(e)` then `d.clear()` — the iterator checks the
@@ -107,6 +109,7 @@ inductive Label
   | drain (c : Nat)
   | deliver (c : Nat)
   | recv
+  | served
   | clr
   | cl
   -- environment (server, network)
@@ -118,7 +121,7 @@ inductive Label
 deriving Repr, DecidableEq
 
 def Label.isIo : Label → Bool
-  | .send _ | .drain _ | .deliver _ | .recv | .clr | .cl => true
+  | .send _ | .drain _ | .deliver _ | .recv | .served | .clr | .cl => true
   | _ => false
 
 structure St where
@@ -136,13 +139,14 @@ structure St where
   inbuf : Bytes
   eof : Bool
   inErr : Bool
+  serving : Option (Nat × Bytes)   -- a server push request being evaluated by the listener
   outbox : List (Nat × Bytes)      -- frames written (requests carry an empty body here)
   delivered : List (Nat × Bytes)   -- ghost: frames the listener matched to a pending id
 
 def init (v : Variant) (closeBody : Bytes) (failBodies : List Bytes) : St :=
   { variant := v, closeBody, failBodies, calls := fun _ => {}, n := 0, pending := [],
     writer := true, provOpen := true, wrBroken := false, running := true, lst := .listening,
-    inbuf := [], eof := false, inErr := false, outbox := [], delivered := [] }
+    inbuf := [], eof := false, inErr := false, serving := none, outbox := [], delivered := [] }
 
 def upd (f : Nat → Call) (c : Nat) (v : Call) : Nat → Call := fun k => if k = c then v else f k
 
@@ -205,7 +209,7 @@ def step (s : St) : Label → Option St
       | none => none
     else none
   | .recv =>
-    if s.lst = .listening then
+    if s.lst = .listening ∧ s.serving = none then
       if s.inErr then some (s.lexit .lost)
       else
         match decodeFrame s.inbuf with
@@ -219,10 +223,18 @@ def step (s : St) : Label → Option St
           else if body = s.closeBody then
             if s.wrBroken then some (s.lexit .lost)
             else some ({ s with running := false, outbox := s.outbox ++ [(id, body)] }.lexit .closed)
-          else if body ∈ s.failBodies then some (s.lexit .lost)
-          else if s.wrBroken then some (s.lexit .lost)
-          else some { s with outbox := s.outbox ++ [(id, body)] }
+          else some { s with serving := some (id, body) }   -- `run_command_on_klongloop` starts
     else none
+  | .served =>
+    match s.serving with
+    | some (id, body) =>
+      if s.lst = .listening then
+        let s : St := { s with serving := none }
+        if body ∈ s.failBodies then some (s.lexit .lost)       -- evaluation raised: "unknown error"
+        else if s.wrBroken then some (s.lexit .lost)           -- sending the result failed
+        else some { s with outbox := s.outbox ++ [(id, body)] }
+      else none
+    | none => none
   | .clr =>
     match s.lst with
     | .snapped e items => some { s with pending := [], lst := .failing e items }
@@ -264,7 +276,7 @@ def runStrict (s : St) : List Label → Option St
 
 /-- the io-loop labels that can be enabled at all in `s` (calls ≥ `n` are idle) -/
 def ioLabels (s : St) : List Label :=
-  [.recv, .clr, .cl] ++ (List.range s.n).flatMap (fun c => [.send c, .drain c, .deliver c])
+  [.recv, .served, .clr, .cl] ++ (List.range s.n).flatMap (fun c => [.send c, .drain c, .deliver c])
 
 /-- decidable form of "no io-loop step is enabled" -/
 def ioIdle (s : St) : Bool := (ioLabels s).all (fun l => !enabled s l)
@@ -336,6 +348,7 @@ def parseLabel (ws : List String) : Option Label :=
     | "drain" => c.map .drain
     | "deliver" => c.map .deliver
     | "recv" => some .recv
+    | "served" => some .served
     | "clr" => some .clr
     | "cl" => some .cl
     | "feed" => (parseHex (fieldD fs "b")).map .feed
